@@ -26,6 +26,9 @@ C16 line-protocol driver.
   sopts <sites> <opts>           sites on port 8080+2i, listening on `:port` (1) or, through `bind 127.0.0.1 127.0.0.2`, on two addresses (2) and `servers` option blocks
                                  <opts> = `.` | a/n/d;…   a = `*` (no address) | i.k (port k of site i)   n = `-` | name
                                  d = `-` | idle seconds; through the whole adapter       → `name=:p+:q:idle|…` (by name) | `rej`
+  addr <text>                    `ParseAddress` on ASCII bytes              → `ok <scheme> <host> <port> <path>` (hex) | `err`
+  lnp <scheme> <port>            the site key [<scheme>://]a.test[:<port>] through the whole adapter: the port of
+                                 the listener address                       → `ok <port>` | `rej`
   rename <n> <opts>              n sites on ports 8080+i and `servers :<port> { name … }` options (i:name,…): repeated
                                  adaptation and "no server lost", oracle only                 → `oracle-only`
   perm <text> <seed>             \
@@ -44,6 +47,7 @@ import CaddyModel.C16.Args
 import CaddyModel.C16.ParseGlue
 import CaddyModel.C16.BindGlue
 import CaddyModel.C16.ServerOpts
+import CaddyModel.C16.Addr
 
 namespace CaddyModel.C16
 
@@ -260,7 +264,36 @@ def parseSrvOpt (servers : List Srv) (s : String) : Option SrvOpt :=
 def showSrv (s : Srv) : String :=
   s.name ++ "=" ++ "+".intercalate s.listen ++ ":" ++ (match s.idle with | none => "-" | some v => toString v)
 
+/-! `addr`, `lnp` -/
+
+def asciiOnly (b : Bytes) : Bool := b.all (· < 128)
+
+def lowerA (b : Bytes) : Bytes := b.map fun c => if 65 ≤ c && c ≤ 90 then c + 32 else c
+
+def siteKeyText (scheme port : Bytes) : Bytes :=
+  (if scheme.isEmpty then [] else scheme ++ schemeSep) ++ str "a.test" ++ (if port.isEmpty then [] else 58 :: port)
+
 def handle : List String → String
+  | ["addr", t] =>
+    match hexField t with
+    | some b =>
+      if !asciiOnly b then "bad-op" else
+      match parseAddress b with
+      | some a => "ok " ++ Hex.encode a.scheme ++ " " ++ Hex.encode a.host ++ " " ++ Hex.encode a.port ++ " " ++ Hex.encode a.path
+      | none => "err"
+    | none => "bad-op"
+  | ["lnp", sc, po] =>
+    match hexField sc, hexField po with
+    | some s, some p =>
+      if s.all (fun c => (65 ≤ c && c ≤ 90) || (97 ≤ c && c ≤ 122)) && p.all (fun c => 48 ≤ c && c ≤ 57) && p.length ≤ 5 then
+        match parseAddress (siteKeyText s p) with
+        | some a =>
+          (match listenerPort (str "80") (str "443") (lowerA a.scheme) a.port with
+           | some lp => "ok " ++ bytesToString lp
+           | none => "rej")
+        | none => "rej"
+      else "bad-op"
+    | _, _ => "bad-op"
   | ["sopts", sites, opts] =>
     match parseSitesPorts sites with
     | some servers =>
